@@ -238,9 +238,10 @@ static const std::map<std::string, Fmt> &formats() {
     // xyz: "%10.5f" Angstrom, blank separated
     f["xyz"] = Fmt{"xyz", 3, 9.999999, 99.999999, 0, 0, 8, false, 0, 0, 0, 0, 0, false,
                    0, false, true, false, false, 0.5e-6, 0, 0, 0, 0};
-    // lammps dump: "%f" (6 decimals) Angstrom, Angstrom/ps(*), kcal/mol/Angstrom; "0 L" bounds -> diagonal only
+    // lammps dump: "%f" (6 decimals) Angstrom, Angstrom/ps(*), kcal/mol/Angstrom; "0 L" bounds for rectangular boxes,
+    // bounding box + tilt factors (reduced triclinic form only) since fix f2a9b4b2e
     f["dump"] = Fmt{"dump", 0, 1e4, 1e4, 0, 0, 9, true, 1e4, 1e4, 0, 0, 9, true,
-                    3, false, true, true, false, 0.5e-7, 0.5e-7, 0.5e-6 * 41.868, 0.5e-7, 0};
+                    9, false, true, true, false, 0.5e-7, 0.5e-7, 0.5e-6 * 41.868, 1.5e-7, 0};
     // dl_poly HISTORY: 12 significant digits, general notation
     f["dlph"] = Fmt{"dlph", 0, 1e4, 1e4, 0, 0, 9, true, 1e4, 1e4, 0, 0, 9, true,
                     9, true, true, true, true, 0, 0, 0, 0, 0.5e-11};
@@ -576,7 +577,7 @@ static Result roundtrip_body(const json &c) {
   if (carry_f) r.cls("forces");
   if (hf && !carry_f && F.force) r.cls("forces-without-velocities(not storable)");
   if (c.at("fullwidth").get<bool>()) r.cls("full-field-width");
-  if (fname == "dump") r.cls("restriction:orthorhombic/open-only(reader rejects triclinic header)");
+  if (fname == "dump") r.cls("dump:reduced-triclinic-form-only");
   if (fname == "pdb") r.cls("restriction:no-box(Write emits no CRYST1)");
   if (n >= 100) r.cls("beads>=100");
   r.nontrivial = nf >= 2 || (F.boxcomp == 9 && bk >= 2) || (carry_v && carry_f);
